@@ -58,6 +58,25 @@ func c03Enumerate(tier string, yield func(any)) {
 	for i := 0; i < np; i++ {
 		yield(&c03Case{Kind: "parse", First: i})
 	}
+	if tier == "thorough" {
+		// parser level, length 4: first two pairs fixed per case, the worker loops over the last two
+		for i := 0; i < np; i++ {
+			for j := 0; j < np; j++ {
+				yield(&c03Case{Kind: "parse4", First: i, Serial: j})
+			}
+		}
+		// generation, length 3 over a reduced alphabet (every key with two values)
+		for pm := 0; pm < 3; pm++ {
+			for i := 0; i < np; i++ {
+				for j := 0; j < np; j++ {
+					if i%len(c03Values) > 1 || j%len(c03Values) > 1 {
+						continue
+					}
+					yield(&c03Case{Kind: "gen3", Pairs: []int{i, j}, ProfMod: pm})
+				}
+			}
+		}
+	}
 	// generation: all sequences of length 1-2
 	for pm := 0; pm < 3; pm++ {
 		for i := 0; i < np; i++ {
@@ -160,6 +179,26 @@ func c03Exec(x *engine.Ctx, cc any) {
 		x.Eval(n - 1)
 		x.NontrivialN(n)
 		x.Outcome("parsed")
+	case "parse4":
+		var n int64
+		for k := 0; k < np; k++ {
+			for l := 0; l < np; l++ {
+				c03CheckParsed(x, c03Subject([]int{c.First, c.Serial, k, l}, (k+l)%len(c03Seps)), &c03Case{Kind: "parse", Pairs: []int{c.First, c.Serial, k, l}, Sep: (k + l) % len(c03Seps)})
+				n++
+			}
+		}
+		x.Eval(n - 1)
+		x.NontrivialN(n)
+		x.Outcome("parsed4")
+	case "gen3":
+		for k := 0; k < np; k++ {
+			if k%len(c03Values) > 1 {
+				continue
+			}
+			cc := &c03Case{Kind: "gen", Pairs: []int{c.Pairs[0], c.Pairs[1], k}, ProfMod: c.ProfMod, Sep: k % len(c03Seps)}
+			c03Exec(x, cc)
+			x.Eval(1)
+		}
 	case "gen":
 		subj := c03Subject(c.Pairs, c.Sep)
 		cfg := &refcfg.CertCfg{Path: "ent.yaml", Subject: subj, KeyAlg: "P-224"}
@@ -276,7 +315,7 @@ func init() {
 		ID:          "C03",
 		Level:       "exploration",
 		Rule:        "subject strings over 11 keys (9 short names, 2 dotted OIDs) x 7 values (ASCII, inner double space, punctuation, non-ASCII, 64 and 200 characters): every sequence of length 1..3 (4.6e5, with 4 separator spellings) through config.ParseRDNSequence vs. the documented grammar; every sequence of length 1..2 and every cyclic window of length 3..8 with rotating values through whole certificate generation without profile, with a profile listing the subject's attributes, and the same with allowOther (quick thins the profile variants of length-2 subjects to a third); 8 serials x 6 x 6 unique-id settings x {no profile, extension-only profile, subject-constraining profile}; 8 two-run forests for serial freshness. Oracle: one single-valued RDN per pair in reversed order, documented OID, text unchanged, UTF8String or (in repertoire) PrintableString, identical with and without profile; configured serial/unique ids bit for bit. non-trivial = distinct case that reached the comparison",
-		Bound:       map[string]string{"subject length": "parser 1..3 exhaustive, generation 1..2 exhaustive, 3..8 windows", "values": "7"},
+		Bound:       map[string]string{"subject length": "parser 1..3 exhaustive (thorough 1..4: 3.5e7), generation 1..2 exhaustive (thorough: length 3 over 11 keys x 2 values), 3..8 windows", "values": "7"},
 		Assumptions: []string{"values containing , = \\ or a leading # are outside the documented grammar that reaches the parser", "fresh-serial collisions have probability about 2^-150"},
 		Budget:      budgets(quickBudget, thoroughBudget),
 		Enumerate:   c03Enumerate,
